@@ -23,6 +23,8 @@ func main() {
 			subC19Stress(flag.Args())
 		case "userpanic":
 			subUserPanic(flag.Args())
+		case "rawpeer":
+			subRawPeer(flag.Args())
 		case "callee":
 			subCallee(flag.Args())
 		case "lateframes":
@@ -93,6 +95,7 @@ func main() {
 		fmt.Fprintln(os.Stderr, "harness: no suite for", prop)
 		os.Exit(2)
 	}
+	runRawPeer(rep, prop)
 	rep.write(*out)
 }
 
